@@ -674,8 +674,10 @@ def to_yaml(doc, text_map=None, mutate=None):
                         seen[repr(h)] = f"h{len(seen)}"
                         items.append(f"&{seen[repr(h)]} {h}")
                 out.append("        height: &hts [" + ", ".join(items) + "]")
+            elif a["height"] == list(doc["assems"].values())[0]["height"]:
+                out.append("        height: *hts")          # the whole list by alias (only when it IS the same list)
             else:
-                out.append("        height: *hts")          # the whole list by alias
+                out.append(f"        height: {a['height']}")
             seenx, itemsx = {}, []
             for x in a["xs"]:
                 if x in seenx:
@@ -1045,6 +1047,72 @@ class BP:
         self.req, self.exp, self.cases = [], [], []
 
 
+def text_inconsistency(kind, text, an):
+    """Inconsistent documents must be inconsistent in the TEXT armi parses: re-read the YAML with plain ruamel (anchors and
+    aliases resolved by the parser) and look for the defect the kind names. Returns None when it is there, else a reason."""
+    from ruamel.yaml import YAML
+    if kind in ("duplicate-component", "duplicate-block-name", "duplicate-specifier", "duplicate-grid-location"):
+        y = YAML(typ="safe")
+        y.allow_duplicate_keys = True
+        try:
+            y.load(text)
+        except Exception:
+            return None
+        lines = text.split("\n")
+        if kind == "duplicate-component":
+            blk, seen = None, set()
+            for l in lines:
+                if l.startswith("    ") and not l.startswith("     ") and l.rstrip().endswith(tuple(f"&blk{i}" for i in range(9)) + ("&blkdup",)):
+                    blk, seen = l, set()
+                elif l.startswith("        ") and not l.startswith("         ") and l.rstrip().endswith(":"):
+                    if l.strip() in seen:
+                        return None
+                    seen.add(l.strip())
+            return "no component name occurs twice in a block"
+        if kind == "duplicate-block-name":
+            names = [l.split(":")[0].strip() for l in lines if "&blk" in l]
+            return None if len(names) != len(set(names)) else "no block name occurs twice"
+        if kind == "duplicate-specifier":
+            specs = [l.split(":")[1].strip() for l in lines if l.strip().startswith("specifier:")]
+            return None if len(specs) != len(set(specs)) else "no specifier occurs twice"
+        keys = [tuple(lines[k:k + 2]) for k, l in enumerate(lines) if l.strip().startswith("? -")]
+        return None if len(keys) != len(set(keys)) else "no grid location occurs twice"
+    y = YAML(typ="safe")
+    d = y.load(text)
+    designs = d["assemblies"]
+    a = designs.get(an, {})
+    nb = len(a.get("blocks", []))
+    if kind == "unequal-heights":
+        return None if len(a["height"]) != nb else "height list has one entry per block"
+    if kind == "unequal-xs":
+        return None if len(a["xs types"]) != nb else "xs types list has one entry per block"
+    if kind == "unequal-mesh":
+        return None if len(a["axial mesh points"]) != nb else "mesh list has one entry per block"
+    if kind == "unequal-matmod" or kind.startswith("matmod-"):
+        mm = a.get("material modifications", {})
+        lens = [len(v) for k, v in mm.items() if k != "by component"] + \
+               [len(v) for c in (mm.get("by component") or {}).values() for v in c.values()]
+        return None if any(n != nb for n in lens) else "every modifier list has one entry per block"
+    if kind == "unknown-specifier":
+        specs = {x["specifier"] for x in designs.values()}
+        used = set(d["grids"]["core"]["grid contents"].values())
+        return None if used - specs else "every specifier of the grid is defined"
+    blocks = d["blocks"]
+    if kind == "cyclic-link":
+        return None if any(b["bond"].get("od") == "clad.id" and b["clad"].get("id") == "bond.od" for b in blocks.values()) \
+            else "no bond.od <-> clad.id cycle"
+    if kind == "unknown-link-target":
+        return None if any(b["bond"].get("od") == "cladding.id" for b in blocks.values()) else "no link to an unknown component"
+    if kind == "overlapping-solids":
+        return None if any(isinstance(b["clad"]["id"], float) and b["clad"]["id"] < b["fuel"]["od"] and b["bond"]["material"] == "HT9"
+                           for b in blocks.values()) else "no solid liner squeezed to negative area"
+    if kind == "solids-exceed-block":
+        return None if any(b["fuel"].get("mult") == 5000.0 for b in blocks.values()) else "no oversized multiplicity"
+    if kind == "conflicting-mult":
+        return None if any("latticeIDs" in b["fuel"] and "mult" in b["fuel"] for b in blocks.values()) else "no declared mult on a lattice component"
+    return None
+
+
 def independent_contents(ctx, doc, text_map, A):
     """Location -> specifier as the document says: the explicit mapping, or the Lean reading of the map text
     (placeholders dropped; full Cartesian maps are centred as the grid blueprint documents)."""
@@ -1183,6 +1251,9 @@ def run_blueprints(ctx):
                 doc["contents"][(0, 0)] = a["specifier"]
             text = to_yaml(doc, None, mutate)
             tag = f"bad#{t}:{kind}"
+            why = text_inconsistency(kind, text, an)
+            if why is not None:
+                raise common.Infra(f"generator bug: the document of {tag} is not inconsistent in the text armi parses ({why})")
             try:
                 r = build(text)
                 refused = False
